@@ -1,5 +1,6 @@
 import Cell2v.Driver.Util
 import Cell2v.Model.Service
+import Cell2v.Model.ServiceLife
 /-!
 Model driver for C01.
 
@@ -197,6 +198,64 @@ def allocRun (count tail : Nat) : List Nat :=
       go n (i + 1) y (if i + tail ≥ count then y :: acc else acc)
   go count 0 0 []
 
+/-! ### the composite op `restart` (Model/ServiceLife.lean) -/
+
+def insertPair (x : Nat × String) : List (Nat × String) → List (Nat × String)
+  | [] => [x]
+  | y :: ys => if x.1 ≤ y.1 then x :: y :: ys else y :: insertPair x ys
+
+/-- observation of a `Life` with at most one orphan: harness tag = instance number of the orphan, `off` + instance
+number of the live object; callbacks of one sub-step sorted by tag; the logs are consumed -/
+def lifeObs (l : Life) (status : String) (off : Nat) : Life × String :=
+  let cbOf (s : State) (o : Nat) : List (Nat × String) := s.log.reverse.filterMap fun e => match e with
+    | .cb i _ oc t => some (i + o, s!"{i + o}:{classOf oc}@{t}")
+    | _ => none
+  let cbs := ((cbOf l.cur off ++ (l.old.map (cbOf · 0)).flatten).foldr insertPair []).map (·.2)
+  let iss := l.cur.log.reverse.filterMap fun e => match e with
+    | .issued i _ t => some s!"{i + off}:R@{t}"
+    | _ => none
+  let sent := l.cur.log.reverse.filterMap fun e => match e with
+    | .sent i id => some s!"{i + off}:{id}:a.b"
+    | _ => none
+  let pend := (sortNat (keys l.cur.pending)).map toString
+  let clr (s : State) : State := { s with log := [] }
+  (⟨clr l.cur, l.old.map clr⟩,
+   s!"{status};iss={joinC iss};cb={joinC cbs};sent={joinC sent};pend={joinC pend};pan=")
+
+def lrepeat (l : Life) (op : LOp) : Nat → Life
+  | 0 => l
+  | n + 1 => lrepeat (lstep l op) op n
+
+/-- the expiry timers during `adv dt=31000` from time `off`: the orphan's (armed at 0) fires at 1000k, the live
+object's (armed at `off`, if it ever sent a request) at off + 1000k; callbacks (no scripts) return at once -/
+def restartAdv (l : Life) (a b off : Nat) : Nat → Nat → Life
+  | 0, _ => l
+  | n + 1, k =>
+    let l := lstep l (.live (.advance (1000 * k - l.cur.now)))
+    let l := lrepeat (lstep l (.orphan 0 (.tick []))) (.orphan 0 .ret) (a + 1)
+    let l := lstep l (.live (.advance (off + 1000 * k - l.cur.now)))
+    let l := lrepeat (lstep l (.live (.tick []))) (.live .ret) (b + 1)
+    restartAdv l a b off n (k + 1)
+
+def restartModel (a b w off : Nat) : String :=
+  let l := Life.start maxReqId
+  let rec reqs (l : Life) (st : String) (o : Nat) (acc : List String) : Nat → Life × List String
+    | 0 => (l, acc)
+    | n + 1 =>
+      let (l, ob) := lifeObs (lstep l (.live (.issue true true true))) st o
+      reqs l st o (ob :: acc) n
+  let (l, acc) := reqs l "ok" 0 [] (a + 1)
+  let (l, o1) := lifeObs (lstep l (.live (.advance off))) "ok" 0
+  -- the reply to request `a` (id a+1): its callback runs (not recorded by the harness) and panics -> restart
+  let l := lstep (lstep l (.live (.response (a + 1) (.ok (some 1))))) .crash
+  let l : Life := ⟨l.cur, l.old.map fun s => { s with log := [] }⟩
+  let (l, o2) := lifeObs l "restarted" (a + 1)
+  let (l, acc) := reqs l "restarted" (a + 1) (o2 :: o1 :: acc) b
+  -- the peer's reply to the OLD request 0 (id 1) is handled by the live object
+  let (l, o3) := lifeObs (lstep (lstep l (.live (.response 1 (.ok (some w))))) (.live .ret)) "restarted" (a + 1)
+  let (_, o4) := lifeObs (restartAdv l a b off 31 1) "restarted" (a + 1)
+  "ok r=" ++ "|".intercalate (o4 :: o3 :: acc).reverse
+
 def stepModel (d : D) (line : String) : D × String :=
   let ws := words line
   match ws.head? with
@@ -214,6 +273,14 @@ def stepModel (d : D) (line : String) : D × String :=
       let left := (run (init maxReqId 0) [.issue true true true, .response 1 (.ok (some w)), .ret]).pending.length * n
       (d, s!"ok crowd={n} cb={joinC ((List.range n).map one)} timers=3 posts=3 left={left} viol=")
     | _, _ => (d, "bad-op")
+  | some "restart" =>
+    -- only as the first op of a case (fresh requester); the case is over afterwards
+    if !d.started || d.s.ninst != 0 then (d, "bad-op") else
+    match kvNat ws "a", kvNat ws "b", kvNat ws "w", kvNat ws "off" with
+    | some a, some b, some w, some off =>
+      if a < 1 || a > 6 || b > 6 || off < 1 || off > 999 then (d, "bad-op")
+      else ({ d with started := false }, restartModel a b w off)
+    | _, _, _, _ => (d, "bad-op")
   | some "allocrun" =>
     match kvNat ws "count", kvNat ws "tail" with
     | some c, some t => (d, s!"ok ids={joinC ((allocRun c t).map toString)}")
@@ -374,6 +441,17 @@ def specStep (st : SS) (line : String) : SS × String :=
           else if (b.splitOn "none").length > 1 then (st, viol "never-completed" s!"crowd member never completed: {b}" op)
           else (st, viol "callback-wrong-reply" s!"crowd member completed with the wrong reply: {b}" op)
         | [] => if (kvNat os "left").getD 0 != 0 then (st, viol "pending-residue" "crowd members left entries behind" op) else (st, "ok")
+    | some "restart" =>
+      -- a user callback that panics under handleResponse: outside the property's assumptions.  What the restart does is
+      -- fixed by the model (Model/ServiceLife.lean, differential); here only: no completion callback ran twice
+      let cbs := ((obs.splitOn "cb=").drop 1).map fun seg => ((seg.splitOn ";").headD "")
+      let tags := (cbs.map fun seg => (seg.splitOn ",").filter (· ≠ "") |>.map fun e => (e.splitOn ":").headD "").flatten
+      let rec dup : List String → Option String
+        | [] => none
+        | x :: xs => if xs.contains x then some x else dup xs
+      match dup tags with
+      | some t => ({ st with poisoned := true }, viol "callback-twice" s!"instance {t} completed twice across a restart" op)
+      | none => ({ st with poisoned := true }, "ok")
     | some opk =>
       if st.poisoned || os.head? == some "bad-op" then (st, "ok") else
       -- D22: a reply whose type cannot be decoded must complete the request it answers, once, with an error;
